@@ -22,11 +22,15 @@ var Classes = []string{"empty", "one", "small", "wide", "deep", "mid", "tall", "
 
 // GenOpts tunes Gen.
 type GenOpts struct {
-	Syn      bool   // add synonym documents
-	Vec      bool   // add vector fields
-	IDPrefix string // make ids of different batches distinct (or equal, for update-like merges)
-	MaxTerms int    // restrict term alphabet (0 = class default)
-	NoBig    bool   // no 70 kB values
+	Syn      bool     // add synonym documents
+	Vec      bool     // add vector fields
+	IDPrefix string   // make ids of different batches distinct (or equal, for update-like merges)
+	MaxTerms int      // restrict term alphabet (0 = class default)
+	NoBig    bool     // no 70 kB values
+	Names    []string // use exactly these field names, every document has every field (identical field lists across batches)
+	Terms    []string // use exactly this term alphabet
+	Docs     int      // override the number of documents (0 = class default)
+	NoDupIDs bool
 }
 
 func pick(rng *rand.Rand, pool []string, n int) []string {
@@ -129,6 +133,15 @@ func Gen(rng *rand.Rand, class string, o GenOpts) *Batch {
 	}
 	names := pick(rng, FieldPool, nFieldNames)
 	terms := pick(rng, TermPool, nTerms)
+	if o.Names != nil {
+		names = o.Names
+	}
+	if o.Terms != nil {
+		terms = o.Terms
+	}
+	if o.Docs > 0 {
+		nDocs = o.Docs
+	}
 	cfg := map[string]*fieldCfg{}
 	for _, n := range names {
 		cfg[n] = &fieldCfg{
@@ -145,9 +158,10 @@ func Gen(rng *rand.Rand, class string, o GenOpts) *Batch {
 		}
 	}
 	mixed := rng.Intn(10) == 0 // options vary between instances of a field
-	withAll := rng.Intn(3) == 0 && class != "tall"
-	dupIDs := rng.Intn(12) == 0
+	withAll := rng.Intn(3) == 0 && class != "tall" && o.Names == nil
+	dupIDs := rng.Intn(12) == 0 && !o.NoDupIDs
 	idWidth := 1 + rng.Intn(3)
+	idDV := rng.Intn(10) == 0
 	for d := 0; d < nDocs; d++ {
 		var doc Doc
 		switch {
@@ -162,9 +176,10 @@ func Gen(rng *rand.Rand, class string, o GenOpts) *Batch {
 			}
 		}
 		doc.IDLast = rng.Intn(2) == 0
+		doc.IDDV = idDV
 		// which field names this doc has (documents with non-overlapping fields matter)
 		for _, n := range names {
-			if rng.Intn(4) == 0 && class != "tall" {
+			if rng.Intn(4) == 0 && class != "tall" && o.Names == nil {
 				continue
 			}
 			c := cfg[n]
